@@ -262,11 +262,12 @@ def cubes_sample(tier, seed):
             out.append({'kind': kind, 'dlen': dl, 'rlen': 0, 'oplen': 0,
                         'exclude': False})
         if kind in ('removal', 'renamed', 'changed-default'):
-            for rl in range(1, L + 1):
+            # two free texts at once: 1 + up to 4 symbolic characters (more
+            # does not finish within the cube budget)
+            for rl in range(1, 5):
                 for ex in (False, True):
-                    out.append({'kind': kind, 'dlen': 1 if tier == 'quick'
-                                else 2, 'rlen': rl, 'oplen': 0,
-                                'exclude': ex})
+                    out.append({'kind': kind, 'dlen': 1, 'rlen': rl,
+                                'oplen': 0, 'exclude': ex})
         if kind in ('documented', 'removal', 'renamed'):
             out.append({'kind': kind, 'dlen': 1, 'rlen': 0, 'oplen': 2,
                         'exclude': False})
